@@ -28,16 +28,16 @@ func scenarioFamily(prop string, cfgOf func(i int) world.Cfg, check recCheck, no
 		srv := simapi.New()
 		w := world.New(srv)
 		st := mon.Stats(res.Stats)
-		for i := 0; i < ctx.N; i++ {
+		for i := ctx.Lo; i < ctx.hi(); i++ {
 			if !ctx.mine(i) {
 				continue
 			}
 			f := &fam{ctx: ctx, res: res, w: w, prop: prop, check: check, nontrivial: nontrivial, st: st, idx: i}
-			if i < len(directed) {
+			if i-ctx.Lo < len(directed) {
 				w.Reset()
 				f.r = world.NewRunner(w, ctx.caseSeed(i), world.DefaultCfg())
 				f.r.OnRecord = f.onRecord
-				f.safely(func() { directed[i](f) })
+				f.safely(func() { directed[i-ctx.Lo](f) })
 				continue
 			}
 			w.Reset()
@@ -205,18 +205,19 @@ func init() {
 		Assume: simAssumptions, Cases: scenarioCases(480, 24000),
 		Run:    scenarioFamily("C14", cfgPolicy(asv1.ParallelPodManagement), mon.CheckC14, hasPodAction, nil),
 		Floors: []string{"parallel_reconciles_with_burst>1"}})
-	register(&Check{Prop: "C12", Level: "exploration",
-		Rule:   "scenario family; every status write is checked; non-trivial = reconcile with a status write",
-		Assume: simAssumptions, Cases: scenarioCases(480, 24000),
-		Run: scenarioFamily("C12", cfgDefault, mon.CheckC12, func(v *mon.View) bool {
-			for _, c := range v.R.Calls {
-				if c.Sub == "status" {
-					return true
-				}
+	c12fam := scenarioFamily("C12", cfgDefault, mon.CheckC12, func(v *mon.View) bool {
+		for _, c := range v.R.Calls {
+			if c.Sub == "status" {
+				return true
 			}
-			return false
-		}, nil),
-		Floors: []string{"status_writes_checked", "current_revision_transitions_checked"}})
+		}
+		return false
+	}, nil)
+	register(&Check{Prop: "C12", Level: "exploration",
+		Rule:   "scenario family: every status write is checked (bounds, observedGeneration, currentRevision transition); calm family: after convergence the counters are compared with a census of the live pods; non-trivial = reconcile with a status write; distinct = distinct (snapshot signature, write list)",
+		Assume: simAssumptions, Cases: func(t string) int { return scenarioCases(360, 18000)(t) + scenarioCases(160, 8000)(t) },
+		Run:    both(c12fam, scenarioCases(360, 18000), calmFamily("C12")),
+		Floors: []string{"status_writes_checked", "current_revision_transitions_checked", "census_fixed_points_checked"}})
 	register(&Check{Prop: "C13", Level: "exploration",
 		Rule:   "scenario family with own/adopted/foreign/orphan revisions; non-trivial = reconcile that deleted a revision",
 		Assume: simAssumptions, Cases: scenarioCases(480, 24000),
